@@ -98,7 +98,12 @@ def windowed_then_op(rng):
     def rows(n):
         vals = [(x, y, z) for x in (1, 2, 3) for y in (10, 20) for z in (5, 6)]
         rng.shuffle(vals)
-        return [dict(zip(cols, v)) for v in vals[:n]]
+        out = vals[:n]
+        if dup:
+            out = out + [rng.choice(out) for _ in range(rng.choice([1, 2, 3]))]   # duplicate rows: they matter to DISTINCT + OFFSET
+            rng.shuffle(out)
+        return [dict(zip(cols, v)) for v in out]
+    dup = rng.random() < 0.4
     l1 = ("leaf", 1, SQL, sorted(cols), rows(rng.choice([3, 4, 5])), (0, None))
     l2 = ("leaf", 2, SQL, sorted(cols), rows(rng.choice([2, 3, 4])), (0, None))
     shape = rng.choice(["chain", "chain", "hidden", "hidden", "plain", "chain_dedup"])
@@ -112,8 +117,19 @@ def windowed_then_op(rng):
         p = ("un", ("proj", sorted(cur)), mp.DEFAULT, p)
     terms = [(("ref", k), rng.random() < 0.5) for k in rng.sample(sorted(cur), len(cur))]
     p = ("un", ("sort", terms), mp.DEFAULT, p)
-    start = rng.choice([0, 0, 1])
-    p = ("un", ("slice", start, start + rng.choice([1, 2])), mp.DEFAULT, p)
+    start = rng.choice([0, 0, 1, 2]) if dup else rng.choice([0, 0, 1])
+    p = ("un", ("slice", start, start + rng.choice([1, 1, 2] if dup else [1, 2])), mp.DEFAULT, p)
+    if dup and rng.random() < 0.6:
+        p = ("un", ("dedup",), mp.DEFAULT, p)
+        if rng.random() < 0.5:
+            return p, cur
+    if rng.random() < 0.25 and len(terms) >= 2:
+        # the window re-sorted by the SAME terms in another order (a total order again), then a second window
+        again = terms[1:] + terms[:1] if rng.random() < 0.5 else list(reversed(terms))
+        p = ("un", ("sort", again), mp.DEFAULT, p)
+        b0 = rng.choice([0, 0, 1])
+        p = ("un", ("slice", b0, b0 + 1), mp.DEFAULT, p)
+        return p, cur
     for _ in range(rng.choice([1, 1, 2])):
         k = rng.choice(["calc", "calc", "sel", "proj", "dedup", "sort", "slice"])
         if k == "calc":
